@@ -233,6 +233,7 @@ type prepared struct {
 	field   string
 	handler http.Handler
 	got     *capture
+	hostile bool   // after each observation the caller overwrites everything it was handed (hostile.go)
 	err     string // preparation failed (panic while building): reported per case
 }
 
@@ -272,7 +273,11 @@ func prepare(level string, d Decl) (p *prepared) {
 			key = altField(d)
 			p.field = key
 		}
-		p.binder = middleware.NewUntypedRequestBinder(map[string]spec.Parameter{key: sp}, new(spec.Swagger), registryFor(d))
+		reg := registryFor(d)
+		p.binder = middleware.NewUntypedRequestBinder(map[string]spec.Parameter{key: sp}, new(spec.Swagger), reg)
+		if d.Registry == "own" && d.LateFormats { // order of setup: binder first, formats afterwards, same registry
+			addUserFormats(func(name string, f strfmt.Format, v strfmt.Validator) { reg.Add(name, f, v) })
+		}
 		if level == "mapptr" {
 			p.binder.SetLogger(discardLogger{}) // the exported logging hook, set
 		}
@@ -290,7 +295,7 @@ func prepare(level string, d Decl) (p *prepared) {
 		api := untyped.NewAPI(doc)
 		api.RegisterConsumer("application/x-www-form-urlencoded", runtime.DiscardConsumer)
 		api.RegisterConsumer("multipart/form-data", runtime.DiscardConsumer)
-		if d.Registry == "own" {
+		if d.Registry == "own" && !d.LateFormats {
 			addUserFormats(api.RegisterFormat) // the application's own formats, on the API's registry
 		}
 		p.got = &capture{}
@@ -307,6 +312,9 @@ func prepare(level string, d Decl) (p *prepared) {
 			p.handler = middleware.Serve(doc, api)
 		default:
 			p.handler = middleware.NewContext(doc, api, nil).APIHandler(nil)
+		}
+		if d.Registry == "own" && d.LateFormats { // order of setup: handler (router, binders) first, formats afterwards
+			addUserFormats(api.RegisterFormat)
 		}
 	default:
 		panic("unknown level " + level)
@@ -351,6 +359,7 @@ func (p *prepared) execute(q Req) (o obs, ok bool) {
 			o.GoType = fmt.Sprintf("%T", x)
 		}
 		o.V = normalise(x)
+		p.afterObservation(x)
 	case "mapptr": // Bind with a pointer to the map (what the repository's own examples pass)
 		var rp middleware.RouteParams
 		if p.d.Loc == "path" {
@@ -367,6 +376,7 @@ func (p *prepared) execute(q Req) (o obs, ok bool) {
 			o.GoType = fmt.Sprintf("%T", x)
 		}
 		o.V = normalise(x)
+		p.afterObservation(x)
 	case "helper":
 		// what a typed / hand-written binder does: pick the text(s) of the parameter out of the
 		// location's values with the exported helpers
@@ -419,6 +429,7 @@ func (p *prepared) execute(q Req) (o obs, ok bool) {
 		x := reflect.ValueOf(data).Elem().FieldByName(p.field).Interface()
 		o.GoType = fmt.Sprintf("%T", x)
 		o.V = normalise(x)
+		p.afterObservation(x)
 	case "handler", "routes", "serve":
 		*p.got = capture{}
 		rec := httptest.NewRecorder()
@@ -435,6 +446,7 @@ func (p *prepared) execute(q Req) (o obs, ok bool) {
 			o.GoType = fmt.Sprintf("%T", x)
 		}
 		o.V = normalise(x)
+		p.afterObservation(x)
 	}
 	if o.V.K == "float" && math.IsNaN(o.V.F) {
 		o.V.F = math.NaN()
